@@ -1077,6 +1077,115 @@ def _fuse_generator_loop(st, helpers, caller, cls):
     return new if placed else None
 
 
+def _fuse_generator_single_yield(st, helpers, caller, cls):
+    """`for T in h(args): BODY` where the generator h is `PRELUDE; <loop>` with exactly one `yield E`, a direct statement of that
+    (last, outermost) loop's body, and `return`s only at the loop's own level: `PRELUDE; <loop with `T = E; BODY` in place of the yield
+    and `break` in place of each return>`.  A `continue` of BODY would skip what the generator does after the yield, so it is only
+    accepted when nothing follows the yield; a `break` of BODY ends the generator (nothing stands behind its loop)."""
+    name = _callee_name(st.iter, cls)[0]
+    h = _GENS.get(name)
+    if h is None or h is caller or st.iter.keywords or st.orelse:
+        return None
+    if isinstance(h, ast.AsyncFunctionDef) != isinstance(st, ast.AsyncFor):
+        return None
+    body = h.body
+    if body and isinstance(body[0], ast.Expr) and isinstance(body[0].value, ast.Constant) and isinstance(body[0].value.value, str):
+        body = body[1:]
+    if not body or not isinstance(body[-1], (ast.For, ast.While)) or body[-1].orelse:
+        return None
+    loop = body[-1]
+    yields = [x for x in ast.walk(h) if isinstance(x, (ast.Yield, ast.YieldFrom))]
+    if len(yields) != 1 or not isinstance(yields[0], ast.Yield) or yields[0].value is None:
+        return None
+    k = next((i for i, b in enumerate(loop.body) if isinstance(b, ast.Expr) and b.value is yields[0]), None)
+    if k is None:
+        return None
+    if any(isinstance(x, (ast.Try, ast.With, ast.AsyncWith)) for x in ast.walk(h)):
+        return None
+    if not isinstance(h, ast.AsyncFunctionDef) and any(isinstance(x, ast.Await) for x in ast.walk(h)):
+        return None
+    # returns: only inside the loop, not inside a nested loop; no value
+    def returns_ok(block, depth):
+        for b in block:
+            if isinstance(b, ast.Return):
+                if b.value is not None or depth != 1:
+                    return False
+            elif isinstance(b, (ast.For, ast.While, ast.AsyncFor)):
+                if any(isinstance(x, ast.Return) for x in ast.walk(b)) and depth >= 1:
+                    return False
+                if depth == 0 and not returns_ok(b.body, 1):
+                    return False
+            elif isinstance(b, ast.If):
+                if not returns_ok(b.body, depth) or not returns_ok(b.orelse, depth):
+                    return False
+        return True
+    if any(isinstance(x, ast.Return) for b in body[:-1] for x in ast.walk(b)) or not returns_ok([loop], 0):
+        return None
+    if any(isinstance(x, (ast.Break, ast.Continue)) for b in loop.body for x in ast.walk(b) if not isinstance(b, (ast.For, ast.While))):
+        pass  # the generator's own break / continue keep their meaning: they stay inside the same loop
+    s2 = loop.body[k + 1:]
+    def own_level(block, kinds):
+        for b in block:
+            if isinstance(b, kinds):
+                return True
+            if isinstance(b, (ast.If,)) and (own_level(b.body, kinds) or own_level(b.orelse, kinds)):
+                return True
+            if isinstance(b, ast.Try) and (own_level(b.body, kinds) or own_level(b.finalbody, kinds) or any(own_level(hd.body, kinds) for hd in b.handlers)):
+                return True
+            if isinstance(b, (ast.With, ast.AsyncWith)) and own_level(b.body, kinds):
+                return True
+        return False
+    if s2 and own_level(st.body, (ast.Continue,)):
+        return None
+    tnames = {n.id for n in ast.walk(st.target) if isinstance(n, ast.Name)}
+    if not all(isinstance(n, (ast.Name, ast.Tuple, ast.Store)) for n in ast.walk(st.target)):
+        return None
+    marker = ast.Expr(ast.Constant("__fused_body__"))
+    give = [ast.Assign([copy.deepcopy(st.target)], copy.deepcopy(yields[0].value), lineno=st.lineno)]
+    pseudo = copy.deepcopy(h)
+    if isinstance(pseudo, ast.AsyncFunctionDef):
+        p2 = ast.FunctionDef(name=pseudo.name, args=pseudo.args, body=pseudo.body, decorator_list=pseudo.decorator_list, returns=None, type_comment=None)
+        p2.type_params = []
+        ast.copy_location(p2, pseudo)
+        pseudo = p2
+    ploop = pseudo.body[-1]
+    ploop.body[k:k + 1] = give + [marker]
+
+    class R(ast.NodeTransformer):
+        def visit_Return(self, node):
+            return ast.copy_location(ast.Break(), node)
+
+        def visit_For(self, node):
+            return node if node is not ploop else self.generic_visit(node)
+
+        def visit_While(self, node):
+            return node if node is not ploop else self.generic_visit(node)
+    R().visit(ploop)
+    for x in ast.walk(pseudo):
+        if isinstance(x, ast.stmt) and not hasattr(x, "lineno"):
+            x.lineno = st.lineno
+    ast.fix_missing_locations(pseudo)
+    exp = _expand(pseudo, st.iter, caller, cls, tnames, "expr")
+    if exp is None:
+        return None
+    new, _ = exp
+    placed = False
+
+    def place(block):
+        nonlocal placed
+        for i, s_ in enumerate(block):
+            if isinstance(s_, ast.Expr) and isinstance(s_.value, ast.Constant) and s_.value.value == "__fused_body__":
+                block[i:i + 1] = st.body
+                placed = True
+                return
+            for fld in ("body", "orelse", "finalbody"):
+                sub = getattr(s_, fld, None)
+                if isinstance(sub, list) and sub and isinstance(sub[0], ast.stmt) and not placed:
+                    place(sub)
+    place(new)
+    return new if placed else None
+
+
 def _inline_in_block(stmts, helpers, caller, cls, rep: Report, failed: set):
     out = []
     changed = False
@@ -1129,6 +1238,8 @@ def _inline_in_block(stmts, helpers, caller, cls, rep: Report, failed: set):
         # `for T in gen(args): BODY` over a new generator helper `PRELUDE; for x in IT: S; yield E`: the two loops fused
         if isinstance(st, (ast.For, ast.AsyncFor)) and isinstance(st.iter, ast.Call):
             fused = _fuse_generator_loop(st, helpers, caller, cls)
+            if fused is None:
+                fused = _fuse_generator_single_yield(st, helpers, caller, cls)
             if fused is not None:
                 for s_ in fused:
                     ast.fix_missing_locations(s_)
